@@ -835,7 +835,7 @@ class EFn(C.Fn):
                 self.locked = saved_locked
         if k == "CompoundStmt":
             return self.st(kids(s) + rest, ctx, ind)
-        if k == "NullStmt" or C._is_assert(s):
+        if k == "NullStmt" or C._is_assert(s) or C._is_noop_call(s):
             return nxt()
         if k in C.STRIP and C._strip(s)["kind"] == "CXXThrowExpr" or k == "CXXThrowExpr":
             return self.throw(C._strip(s), pad)
